@@ -199,7 +199,7 @@ def build_tool(tool, flavour='plain'):
         os.makedirs(d, exist_ok=True)
         man = os.path.join(REPO, 'man')
         cmd = ([fl['cxx']] + fl['flags'] + ['-D' + GUARD] + ['-I' + i for i in inc] +
-               ['-I' + man, '-I' + os.path.join(REPO, '_build', 'man'), src, lib, '-o', exe + '.tmp'])
+               ['-I' + man, '-I' + os.path.join(REPO, '_build', 'man'), '-I/repo/_build/man', src, lib, '-o', exe + '.tmp'])
         r = sh(cmd)
         if r.returncode != 0:
             shutil.rmtree(d, ignore_errors=True)
